@@ -77,7 +77,8 @@ def emit_unit(uspec, log=None):
     inst = os.path.join(VERIF, uspec.inst)
     t0 = time.time()
     try:
-        ast, cmd = cxxast.dump_ast(inst, uspec.filter, REPO_INC, CACHE)
+        extra = [f.replace('$REPO', REPO) for f in getattr(uspec, 'inst_flags', [])]
+        ast, cmd = cxxast.dump_ast(inst, uspec.filter, REPO_INC, CACHE, extra=extra)
     except RuntimeError as e:
         raise Undecided('extraction-break', str(e)[-1500:])
     ub.ast_cmd = ' '.join(cmd)
